@@ -10,6 +10,8 @@ import (
 	"bytes"
 	"context"
 	"crypto/ed25519"
+	"encoding/base64"
+	"encoding/hex"
 	"errors"
 	"fmt"
 	"math/big"
@@ -338,6 +340,29 @@ func (s sendable) toSendable() wallet.Sendable {
 	if s.kind == 1 {
 		return wallet.SimpleTransfer{Amount: tlb.Grams(s.amount), Address: a, Comment: s.comment, Bounceable: s.bounce}
 	}
+	if s.kind == 2 {
+		// code / data / body in the forms utils.AnyToCell accepts: *boc.Cell, []byte BOC, hex string, base64 string
+		form := func(c *boc.Cell, k int) any {
+			if c == nil {
+				return nil
+			}
+			b, err := c.ToBoc()
+			if err != nil {
+				return c
+			}
+			switch k % 4 {
+			case 1:
+				return b
+			case 2:
+				return hex.EncodeToString(b)
+			case 3:
+				return base64.StdEncoding.EncodeToString(b)
+			}
+			return c
+		}
+		k := int(s.mode)
+		return wallet.ContractDeploy{Workchain: s.wc, Code: form(s.code, k), Data: form(s.data, k/4), Body: form(s.body, k/16), Amount: tlb.Grams(s.amount)}
+	}
 	return wallet.Message{Amount: tlb.Grams(s.amount), Address: a, Body: s.body, Code: s.code, Data: s.data, Bounce: s.bounce, Mode: s.mode}
 }
 
@@ -357,6 +382,20 @@ func randSendable(r *prng.R) sendable {
 	amounts := []uint64{0, 1, 255, 256, 1000000000, 1<<32 - 1, 1 << 32, 1<<63 - 1, 1 << 63, 1<<64 - 1, r.U64()}
 	s := sendable{kind: r.Intn(2), amount: amounts[r.Intn(len(amounts))], wc: int32([]int{0, -1, 0, 1}[r.Intn(4)]),
 		addr: r.Bytes(32), bounce: r.Bool(), mode: c14Modes[r.Intn(len(c14Modes))]}
+	if r.Chance(25) { // wallet.ContractDeploy into various workchains; mode selects the forms of code / data / body
+		s.kind = 2
+		s.wc = int32([]int{0, -1, 1, -1, 5, 127, -128}[r.Intn(7)])
+		s.code = randTinyCell(r, 1)
+		s.data = randTinyCell(r, 1)
+		if r.Chance(60) {
+			s.body = randTinyCell(r, 1)
+		}
+		if r.Chance(6) {
+			s.data = nil // "code and data must be set"
+		}
+		s.mode = byte(r.Intn(64))
+		return s
+	}
 	if s.kind == 1 {
 		lens := []int{0, 1, 5, 30, 100, 122, 123, 124, 127, 128, 250, 300, 1000}
 		n := lens[r.Intn(len(lens))]
@@ -377,6 +416,41 @@ func randSendable(r *prng.R) sendable {
 		s.code = randSmallCell(r, 0) // code without data: init is not attached
 	}
 	return s
+}
+
+// the requested fields read back from the carried internal message with the library's tlb.Message decoder and
+// compared with the request, the destination of a deployment being computed here from workchain + state-init hash
+func (s sendable) carriedWrong(m wallet.RawMessage) string {
+	var msg tlb.Message
+	if err := tlb.Unmarshal(cellFromSx(cellToSx(m.Message)), &msg); err != nil || msg.Info.SumType != "IntMsgInfo" {
+		return "the carried cell is not an internal message"
+	}
+	info := msg.Info.IntMsgInfo
+	wantAddr, wantBounce, wantMode, wantInit := s.addr, s.bounce, s.mode, s.code != nil && s.data != nil
+	switch s.kind {
+	case 1:
+		wantMode, wantInit = 3, false
+	case 2:
+		wantAddr = mustHash(cellWith("00110", []*boc.Cell{s.code, s.data}))
+		wantBounce, wantMode, wantInit = true, 3, true
+	}
+	switch {
+	case info.Dest.SumType != "AddrStd" || info.Dest.AddrStd.WorkchainId != int8(s.wc) || !bytes.Equal(info.Dest.AddrStd.Address[:], wantAddr):
+		return fmt.Sprintf("destination is %d:%x, requested %d:%x", info.Dest.AddrStd.WorkchainId, info.Dest.AddrStd.Address[:], int8(s.wc), wantAddr)
+	case uint64(info.Value.Grams) != s.amount:
+		return "amount differs"
+	case info.Bounce != wantBounce || m.Mode != wantMode:
+		return "bounce flag or mode differs"
+	case msg.Init.Exists != wantInit:
+		return "state-init presence differs"
+	}
+	if wantInit {
+		si := msg.Init.Value.Value
+		if !si.Code.Exists || !si.Data.Exists || !bytes.Equal(mustHash(&si.Code.Value.Value), mustHash(s.code)) || !bytes.Equal(mustHash(&si.Data.Value.Value), mustHash(s.data)) {
+			return "attached code / data differ"
+		}
+	}
+	return ""
 }
 
 // message list of n entries; big lists reuse a few distinct cells
@@ -1420,8 +1494,16 @@ func genC14(c *Ctx) {
 			s := randSendable(r)
 			m, err := s.raw()
 			if err != nil {
+				if s.kind == 2 && (s.code == nil || s.data == nil) {
+					ssx = append(ssx, s.sx()) // "code and data must be set": the whole CreateMessageBody must fail
+					continue
+				}
+				c.Fail("c14.body", s.sx(), "c14-sendable-failed", "ToInternal / Marshal of a valid Sendable failed: "+err.Error())
 				bad = true
 				break
+			}
+			if what := s.carriedWrong(m); what != "" {
+				c.Fail("c14.body", s.sx(), "c14-transfer-fields", "the carried internal message differs from the requested transfer: "+what)
 			}
 			ms = append(ms, m)
 			ssx = append(ssx, s.sx())
